@@ -66,7 +66,31 @@ def run_case(case: dict[str, Any]) -> dict[str, Any]:
             initial_buffer_len=case["init_len"],
             warn_buffer_len=max(1, case["max_len"] - 1), max_buffer_len=case["max_len"], **kw)
         rec["created"] = _now()
-        r = Resampler(cfg)
+        if case.get("creeping_clock"):
+            # a real clock moves on between two readings: while the resampler is constructed, every reading of the
+            # wall clock after the first one is a microsecond later than the one before
+            import frequenz.sdk.timeseries._resampling as _rs
+
+            class _Creep:
+                n = 0
+
+                def now(self, tz: Any = None) -> datetime:
+                    d = datetime.now(tz) + timedelta(microseconds=self.n)
+                    self.n += 1
+                    return d
+
+                def __getattr__(self, k: str) -> Any:
+                    return getattr(datetime, k)
+
+            creep = _Creep()
+            _rs.datetime = creep  # type: ignore[assignment]
+            try:
+                r = Resampler(cfg)
+            finally:
+                _rs.datetime = datetime
+            rec["clock_readings_during_construction"] = creep.n
+        else:
+            r = Resampler(cfg)
         loop = asyncio.get_event_loop()
         t_created = loop.time()
         tick_counter = {"n": 0}
